@@ -304,6 +304,14 @@ func run() int {
 						if u, ok := ins.(*ssa.UnOp); ok && u.Op == token.MUL {
 							continue
 						}
+						// an update of a map held in a package-level variable
+						if mu, ok := ins.(*ssa.MapUpdate); ok {
+							if ld, ok := mu.Map.(*ssa.UnOp); ok && ld.Op == token.MUL {
+								if g, ok := ld.X.(*ssa.Global); ok && g.Pkg == sp {
+									writes = append(writes, fn.String()+" updates the map "+g.Name())
+								}
+							}
+						}
 						for _, op := range ins.Operands(nil) {
 							if op == nil || *op == nil {
 								continue
